@@ -1,5 +1,6 @@
 """Turns a logical chain + layout description into a data directory (blk files, xor.dat, LevelDB index)."""
 import os
+import random
 import struct
 import subprocess
 import shutil
@@ -96,15 +97,26 @@ def write_datadir(path, coin, placements, header_only=(), xor_key=None, names=No
             with open(full, "wb") as f:
                 f.write(content)
     pairs = []
+    index_opts = dict(index_opts or {})
+    vary = index_opts.pop("vary_records", None)
+    vrng = random.Random("records|%s" % vary) if vary is not None else None
     for p in placements:
         if not p.indexed:
             continue
         ntx = p.ntx if p.ntx is not None else len(p.block.txs)
-        pairs.append((b"b" + p.block.hash, index_value(p.height, p.status, ntx, p.block.header(), p.file, p.offset, p.undo_pos)))
+        status, undo, cver = p.status, p.undo_pos, 270000
+        if vrng is not None and p.status == ACTIVE:
+            # what real nodes of different ages write for an active-chain block: with or without undo data, with the witness flag,
+            # other client versions, any nTx / undo position (fields no reader of block data depends on)
+            status = vrng.choice([ACTIVE, ACTIVE & ~HAVE_UNDO, ACTIVE | OPT_WITNESS, (ACTIVE & ~HAVE_UNDO) | OPT_WITNESS, VALID_CHAIN | HAVE_DATA | HAVE_UNDO])
+            undo = vrng.choice([None, 8, 2**31, 2**40 + 5, 0])
+            cver = vrng.choice([270000, 70001, 99900, 150000, 280100, 1, 2**31, 2**35 + 7])
+            ntx = vrng.choice([ntx, ntx, 0, 1, 2**32 + 1])
+        pairs.append((b"b" + p.block.hash, index_value(p.height, status, ntx, p.block.header(), p.file, p.offset, undo, client_version=cver)))
     for h in header_only:
         pairs.append((b"b" + h.block.hash, index_value(h.height, h.status, h.ntx, h.block.header())))
     pairs.extend(extra_keys)
-    write_index(os.path.join(path, "index"), pairs, **(index_opts or {}))
+    write_index(os.path.join(path, "index"), pairs, **index_opts)
     return {"files": len(by_file), "records": len(pairs)}
 
 
